@@ -103,20 +103,24 @@ def copySizeOf (o : Impl.Opts) (r : Impl.Root) (op : Impl.Op) : Nat :=
   match op.frm with
   | none => 0
   | some frm =>
-    match Impl.copySource o r frm with
-    | .done con1 v =>
-      let r1 : Impl.Root := { r with con := con1 }
-      match Impl.withPath o r1 op.path (fun _ con _ => (.ok (con, ()) : Impl.Outcome (Impl.Node × Unit))) with
-      | .done con2 _ =>
-        let r2 : Impl.Root := { r1 with con := con2 }
+    let after (r : Impl.Root) {α} (w : Impl.Walk α) : Option Impl.Root :=
+      match w with
+      | .done con _ => some { r with con := con }
+      | .doneSelf s _ => some { r with self := s }
+      | _ => none
+    match after r (Impl.copySource o r frm) with
+    | some r1 =>
+      match after r1 (Impl.withPath o r1 op.path (fun _ con _ => (.ok (con, ()) : Impl.Outcome (Impl.Node × Unit)))) with
+      | some r2 =>
         let val : Impl.Node :=
           if frm = [] then r2.con
           else match Impl.copySource o r2 frm with
             | .done _ v' => v'
-            | _ => v
+            | .doneSelf _ v' => v'
+            | _ => .nil
         (Impl.deepCopy o.esc val).2
-      | _ => 0
-    | _ => 0
+      | none => 0
+    | none => 0
 
 /-- sizes per operation index, following the implementation model's own run -/
 def copySizes (o : Impl.Opts) : Impl.Root → Int → List Impl.Op → List Nat
@@ -136,7 +140,7 @@ def sizesFor (o : Impl.Opts) (doc : Bytes) (ops : List Impl.Op) : List Nat :=
   match parseCst doc with
   | some c =>
     match Impl.decodeRoot c with
-    | .ok con => copySizes { o with limit := 0 } { con := con, self := .raw c } 0 ops
+    | .ok con => copySizes { o with limit := 0 } { con := con, self := .raw c, selfCR := c.isArr && !Impl.goIsArray doc } 0 ops
     | _ => []
   | none => []
 
@@ -216,20 +220,35 @@ def hasRawHtml : Bytes → Bool
       || (c = 0xE2 && (cs.take 2 == [0x80, 0xA8] || cs.take 2 == [0x80, 0xA9]))
       || hasRawHtml cs
 
-/-- number of HTML-class escapes (`<`, `>`, `&`, ` `, ` `, any
-letter case) spelled in a text -/
-def countHtmlEsc : Bytes → Nat
-  | [] => 0
-  | c :: cs =>
-    (if c = 92 then
+/-- the code points among `<`, `>`, `&`, U+2028, U+2029 that a text spells as `\\uXXXX`
+escapes (either letter case); `\\\\` and other two-byte escapes are stepped over -/
+def htmlEscapes : Nat → Bytes → List Nat
+  | 0, _ => []
+  | _ + 1, [] => []
+  | fuel + 1, c :: cs =>
+    if c = 92 then
       match cs with
-      | 117 :: a :: b :: c3 :: d :: _ =>
-        let low (x : UInt8) : UInt8 := if 65 ≤ x.toNat ∧ x.toNat ≤ 70 then x + 32 else x
-        let h := [low a, low b, low c3, low d]
-        if h = ascii "003c" ∨ h = ascii "003e" ∨ h = ascii "0026" ∨ h = ascii "2028" ∨ h = ascii "2029"
-        then 1 else 0
-      | _ => 0
-    else 0) + countHtmlEsc cs
+      | 117 :: rest =>
+        (match hex4 rest with
+         | some v => if v = 0x3c ∨ v = 0x3e ∨ v = 0x26 ∨ v = 0x2028 ∨ v = 0x2029 then v :: htmlEscapes fuel (rest.drop 4)
+                     else htmlEscapes fuel (rest.drop 4)
+         | none => htmlEscapes fuel rest)
+      | _ :: rest => htmlEscapes fuel rest
+      | [] => []
+    else htmlEscapes fuel cs
+
+def rawLineSeps : Bytes → List Nat
+  | [] => []
+  | c :: cs =>
+    (if c = 0xE2 ∧ cs.take 2 = [0x80, 0xA8] then [0x2028]
+     else if c = 0xE2 ∧ cs.take 2 = [0x80, 0xA9] then [0x2029] else []) ++ rawLineSeps cs
+
+/-- EscapeHTML off: every HTML-class escape in the output is already spelled as an escape
+in an input; U+2028/U+2029 may also come from a raw occurrence, because the encoder (like
+the standard library's) always escapes those two when it re-quotes a string -/
+def noNewEscapes (inputs out : Bytes) : Bool :=
+  let have_ := htmlEscapes (inputs.length + 1) inputs ++ rawLineSeps inputs
+  (htmlEscapes (out.length + 1) out).all fun c => have_.contains c
 
 /-- valid UTF-8 (Go's `utf8.Valid`) -/
 def validUtf8 : Nat → Bytes → Bool
@@ -249,6 +268,27 @@ def c15out (esc : Bool) (inputsUtf8 : Bool) (out : Bytes) : Verdict :=
     if esc && hasRawHtml out then .viol "raw-html-char-with-escaping-on"
     else if inputsUtf8 && !isValidUtf8 out then .viol "output-not-utf8"
     else .ok
+
+mutual
+/-- some member name is not spelled the way the encoder (with this escaping flag) would
+spell it; such names are re-spelled when the object holding them is parsed and printed -/
+def keyRespelled (esc : Bool) : Cst → Bool
+  | .arr xs => keyRespelledL esc xs
+  | .obj ms => keyRespelledM esc ms
+  | _ => false
+def keyRespelledL (esc : Bool) : List Cst → Bool
+  | [] => false
+  | x :: xs => keyRespelled esc x || keyRespelledL esc xs
+def keyRespelledM (esc : Bool) : List (Bytes × Cst) → Bool
+  | [] => false
+  | (k, v) :: ms =>
+    quoteBody esc (unquote k) != (if esc then escBody k else k) || keyRespelled esc v || keyRespelledM esc ms
+end
+
+/-- trigger class of the known finding on C15's last clause -/
+def keyNotEncoderSpelled (esc : Bool) (doc patch : Bytes) : Bool :=
+  (match parseCst doc with | some c => keyRespelled esc c | none => false)
+  || (match parseCst patch with | some c => keyRespelled esc c | none => false)
 
 /-! ### C02 / C07 / C03: merge family -/
 
